@@ -76,17 +76,17 @@ func (c *c18Conn) Type() phase.ConnectionType {
 	}
 	return phase.Vanilla
 }
-func (c *c18Conn) SetType(t phase.ConnectionType)                           { c.typ = t }
-func (c *c18Conn) ActiveSessionHandler() netmc.SessionHandler                { return c.handler }
+func (c *c18Conn) SetType(t phase.ConnectionType)                                    { c.typ = t }
+func (c *c18Conn) ActiveSessionHandler() netmc.SessionHandler                        { return c.handler }
 func (c *c18Conn) SetActiveSessionHandler(_ *state.Registry, h netmc.SessionHandler) { c.handler = h }
-func (c *c18Conn) SwitchSessionHandler(*state.Registry) bool                { return true }
-func (c *c18Conn) AddSessionHandler(*state.Registry, netmc.SessionHandler)  {}
-func (c *c18Conn) SetAutoReading(bool)                                      {}
-func (c *c18Conn) SetOutboundState(*state.Registry)                         {}
-func (c *c18Conn) SetProtocol(proto.Protocol)                               {}
-func (c *c18Conn) SetState(s *state.Registry)                               { c.setState(s) }
-func (c *c18Conn) SetCompressionThreshold(int) error                        { return nil }
-func (c *c18Conn) EnableEncryption([]byte) error                            { return nil }
+func (c *c18Conn) SwitchSessionHandler(*state.Registry) bool                         { return true }
+func (c *c18Conn) AddSessionHandler(*state.Registry, netmc.SessionHandler)           {}
+func (c *c18Conn) SetAutoReading(bool)                                               {}
+func (c *c18Conn) SetOutboundState(*state.Registry)                                  {}
+func (c *c18Conn) SetProtocol(proto.Protocol)                                        {}
+func (c *c18Conn) SetState(s *state.Registry)                                        { c.setState(s) }
+func (c *c18Conn) SetCompressionThreshold(int) error                                 { return nil }
+func (c *c18Conn) EnableEncryption([]byte) error                                     { return nil }
 func (c *c18Conn) WritePacket(p proto.Packet) error {
 	c.mu.Lock()
 	c.packets = append(c.packets, p)
@@ -840,7 +840,94 @@ func TestVerif_C18(t *testing.T) {
 		c18Gen, c18Run)
 }
 
+// ---- concurrent replies to one pending id, many rounds per case
+
+type c18HammerCase struct {
+	Rounds  int    `json:"rounds"`
+	Workers int    `json:"workers"` // goroutines replying to the same id at once
+	St      string `json:"st"`      // state of the current backend (play | config)
+	Via     string `json:"via"`     // handler the client replies go through
+	KaVia   string `json:"ka_via"`
+}
+
+// c18RunHammer: per round the current backend asks one keep-alive id once, then
+// Workers goroutines released from one barrier all handle a client reply with
+// that id. Whatever the interleaving, the backend must receive the reply exactly
+// once (asked once, at least one reply, nothing else pending under that id).
+func c18RunHammer(c c18HammerCase) verifkit.Result {
+	if c.Rounds < 1 || c.Rounds > 2000 || c.Workers < 2 || c.Workers > 16 || (c.St != "play" && c.St != "config") {
+		return verifkit.Result{Inconclusive: true, Labels: []string{"invalid-case"}}
+	}
+	f := c18NewFixture()
+	b := f.newBackend(c.St)
+	f.player.setInFlightConnection(f.backends[b])
+	f.player.setConnectedServer(f.backends[b])
+	f.newWrites()
+	var v *verifkit.Violation
+	wr := verifkit.Watch(20*time.Second, "proxy.", func() {
+		for r := 0; r < c.Rounds && v == nil; r++ {
+			id := int64(r%7 + 1)
+			f.ka(b, id, c.KaVia)
+			start := make(chan struct{})
+			var wg sync.WaitGroup
+			for i := 0; i < c.Workers; i++ {
+				wg.Add(1)
+				go func() {
+					defer wg.Done()
+					<-start
+					f.reply(id, c.Via)
+				}()
+			}
+			close(start)
+			wg.Wait()
+			w, bad := f.newWrites()
+			if bad != "" {
+				v = verifkit.Violationf("forward:not-a-keepalive", "%s", bad)
+				return
+			}
+			n := 0
+			for _, got := range w[b] {
+				if got == id {
+					n++
+				}
+			}
+			if n != 1 {
+				key := "forward:more-than-once"
+				if n == 0 {
+					key = "dropped:pending-reply"
+				}
+				v = verifkit.Violationf(key, "round %d: the backend asked keep-alive id %d once and %d handlers processed the client's reply concurrently; the backend received it %d times (all writes of the round: %v)", r, id, c.Workers, n, w)
+			}
+		}
+	})
+	switch wr.Outcome {
+	case verifkit.Deadlocked:
+		return verifkit.Fail("deadlock:keepalive", "concurrent keep-alive handling blocked:\n%s", wr.Stack)
+	case verifkit.Slow:
+		return verifkit.Result{Inconclusive: true, Labels: []string{"slow"}}
+	case verifkit.Panicked:
+		return verifkit.Fail("panic:keepalive", "%v\n%s", wr.PanicValue, wr.PanicStack)
+	}
+	if v != nil {
+		return verifkit.Result{V: v}
+	}
+	return verifkit.Result{NonTrivial: true, Labels: []string{fmt.Sprintf("workers:%d", c.Workers), "state:" + c.St}}
+}
+
+func c18GenHammer(t *rapid.T) c18HammerCase {
+	return c18HammerCase{
+		Rounds:  rapid.SampledFrom([]int{50, 100, 100, 200}).Draw(t, "rounds"),
+		Workers: rapid.SampledFrom([]int{2, 2, 3, 4, 8}).Draw(t, "workers"),
+		St:      rapid.SampledFrom([]string{"play", "config"}).Draw(t, "st"),
+		Via:     rapid.SampledFrom(c18RepVias).Draw(t, "via"),
+		KaVia:   rapid.SampledFrom(c18KaVias).Draw(t, "kaVia"),
+	}
+}
+
 func TestVerif_C18Race(t *testing.T) {
+	verifkit.Check(t, "C18", "concurrent-same-id",
+		"50..200 rounds per case: the current backend (play or config state) asks one keep-alive id once, then 2..8 goroutines released from one barrier all handle the client's reply with that id (play or config client handler); oracle: the backend receives the reply exactly once in every round; race detector on; every case is non-trivial",
+		c18GenHammer, c18RunHammer)
 	verifkit.Check(t, "C18", "concurrent",
 		"sequential setup (current + optional in-flight backend in any state, 0..8 keep-alives), then 2..6 goroutines released from one barrier each handling 1..6 client replies / backend keep-alives biased to one hot id, then a drain of two replies per id; conservation bounds valid for every interleaving (writes(b,id) <= times asked, = 1 if asked once and no concurrent ask, total writes <= replies, only eligible role-holding backends); race detector on; non-trivial = >=2 goroutines reply concurrently to an id pending on a role-holding backend, or same id pending on both backends",
 		c18GenRace, c18RunRace)
